@@ -446,8 +446,6 @@ enum Dev {
     DddInName,
     /// \X in an unquoted string is kept verbatim (backslash included)
     EscapeUnquoted,
-    /// F2e: a relative name after $ORIGIN is not completed with the current origin
-    RelativeOrigin,
 }
 
 impl Dev {
@@ -458,7 +456,6 @@ impl Dev {
             Dev::AtInRdata => "C20-F2b-at-in-rdata",
             Dev::DddInName => "C20-F2b-ddd-in-name",
             Dev::EscapeUnquoted => "C20-F2b-escape-unquoted",
-            Dev::RelativeOrigin => "C20-F2e-relative-origin",
         }
     }
 }
@@ -611,9 +608,9 @@ impl<'a> Printer<'a> {
     fn directive_origin(&mut self, n: &GName) {
         self.out.extend_from_slice(b"$ORIGIN");
         self.gap();
-        let t = if self.devs_on && n.is_under(&self.origin) && self.r.chance(1, 2) {
-            // legal: a relative name is relative to the current origin
-            self.devs.insert(Dev::RelativeOrigin);
+        let t = if !self.plain && n.is_under(&self.origin) && self.r.chance(1, 2) {
+            // a relative name is completed with the current origin (RFC 1035 5.1; former finding
+            // C20-F2e, repaired: no finding class any more, a wrong load is a plain violation)
             let k = n.labels.len() - self.origin.labels.len();
             self.labels_text(&n.labels[..k])
         } else {
@@ -846,8 +843,8 @@ fn print_zone(r: &mut Rng, origin: &GName, recs: &[GRec], devs_on: bool, plain: 
         }
         if !plain && p.r.chance(1, if devs_on { 4 } else { 7 }) {
             // new origin: an ancestor of the next owner, the zone origin, or something unrelated
-            // (with the deviation layouts on: often a child of the current origin)
-            let n = match if devs_on && p.r.chance(1, 2) { 3 } else { p.r.below(3) } {
+            // or a child of the current origin (more often with the deviation layouts on)
+            let n = match if p.r.chance(1, if devs_on { 2 } else { 3 }) { 3 } else { p.r.below(3) } {
                 3 => {
                     let mut labels = vec![gen_label(&mut *p.r)];
                     labels.extend(p.origin.labels.iter().cloned());
@@ -948,9 +945,20 @@ fn malform(r: &mut Rng, origin: &GName) -> (Vec<u8>, &'static str, Option<&'stat
             ("unclosed-paren", None)
         }
         2 => {
-            // the file ends inside the parentheses, right after a token or inside a comment
-            t.extend_from_slice(if r.chance(1, 2) { b"bad 60 IN TXT ( a b" } else { b"bad 60 IN TXT ( a b ; c" });
-            ("unclosed-paren-eof", Some("C20-F2c-eof-in-parens"))
+            // the file ends inside the parentheses: right after a token, inside a comment, after a
+            // blank, right after the parenthesis (former finding C20-F2c, repaired: no class)
+            let s: &[u8] = *r.pick(&[
+                &b"bad 60 IN TXT ( a b"[..],
+                &b"bad 60 IN TXT ( a b ; c"[..],
+                &b"bad 60 IN TXT ( a b ;"[..],
+                &b"bad 60 IN TXT (a"[..],
+                &b"bad 60 IN TXT ( a b ; c)"[..],
+                &b"bad 60 IN TXT ( a b "[..],
+                &b"bad 60 IN TXT ("[..],
+                &b"bad 60 IN MX ( 10 a.\n ; )\n b"[..],
+            ]);
+            t.extend_from_slice(s);
+            ("unclosed-paren-eof", None)
         }
         3 => {
             t.extend(line(r, "bad 60 IN NOSUCHTYPE 1.2.3.4"));
